@@ -927,6 +927,13 @@ class Sym:
         if k == "var":
             vpos = t[2] if len(t) > 2 else None
             bkey = (t[1], vpos)
+            if bkey not in self._busy_vars and self.path_blocks is None:
+                # (on a concrete path the path itself says which way the loop was left: agvlib.quant names that case)
+                sl = self.search_loops().get(t[1])
+                if sl is not None and (vpos is None or (vpos[0] not in sl[1] and vpos[0] != sl[2])):
+                    nm_ = self.name(sl[0])
+                    self.sym_terms.setdefault(nm_, sl[0])
+                    return Poly.sym(nm_)
             if bkey not in self._busy_vars and ("pfl", t[1]) not in self._busy_vars:
                 pf = self.pure_fold_loops().get(t[1])
                 if pf is not None and (vpos is None or vpos[0] not in pf[2]):
@@ -1384,6 +1391,8 @@ class Sym:
             return self.uniq(t[1], "var<%s>" % self.short_ty(self.an.body.locals[t[1]]["ty"]))
         if k == "mut":
             return self.uniq(t[1], self.mut_name(t))
+        if k == "lam":
+            return "|x| " + closure_pred_name(self, None, t[1])        # a predicate read off a loop body
         if k == "aggr" and t[1].startswith("closure:"):
             ci = closure_info(self.prog, self.an, t)
             if ci:
@@ -1639,6 +1648,153 @@ class Sym:
             except Exception:
                 n = None
             out[acc] = (exits[0][0], hd, frozenset(lp), nm, (n, v2))
+        return out
+
+    def search_loops(self):
+        """{result local: (synthesised term, loop blocks, break block)} for the loops that are nothing but a first-match
+        search: `let mut r = D; for (i, x) in S.iter().enumerate() { if P(x) { r = i; break; } }` — one `next` over
+        enumerate(iter(S)), the exhaustion edge and one break edge as the only ways out, a single test P in the body, no
+        call other than pure comparisons/conversions, nothing assigned in the loop that lives outside it, the break block
+        only assigns the index to r, and r is not read between its initialisation and the loop.  After the loop r is
+        `S.iter().position(P).unwrap_or(D)`."""
+        if getattr(self, "_sl", None) is not None:
+            return self._sl
+        self._sl = out = {}
+        body = self.an.body
+        tm = self.an.terms
+        heads = {}
+        for (tl, hd) in body.back_edges():
+            heads.setdefault(hd, [set(), []])
+            heads[hd][0].update(body.natural_loop(tl, hd))
+            heads[hd][1].append(tl)
+        for hd, (lp, tails) in heads.items():
+            exits = [(s_, t_) for s_ in lp for t_ in body.succ(s_) if t_ not in lp and body.blocks[t_]["t"].get("k") != "unreachable"]
+            if len(exits) != 2 or any(h2 != hd and h2 in lp for h2 in heads):
+                continue
+            calls = [(bb, t) for bb, t in body.calls() if bb in lp]
+            nexts = [(bb, t) for bb, t in calls if short(cname(t)) == "Iterator::next"]
+            pure = self.PURE_LOOP_CALLS + ("PartialOrd::gt", "PartialOrd::lt", "PartialOrd::ge", "PartialOrd::le", "PartialEq::eq", "PartialEq::ne")
+            if len(nexts) != 1 or any(short(cname(t)) not in pure and "impl std::convert::From<" not in cname(t) for _, t in calls):
+                continue
+            exh = brk = None
+            for e in exits:
+                try:
+                    d, rel, vals = self.an.edge_atom(*e)
+                except Exception:
+                    d = None
+                ds = strip(d) if d is not None else ("?",)
+                if ds[0] == "discr" and strip(ds[1])[0] == "call" and short(strip(ds[1])[1]) == "Iterator::next":
+                    exh = e
+                else:
+                    brk = e
+            if exh is None or brk is None:
+                continue
+            switches = [b_ for b_ in lp if body.blocks[b_]["t"]["k"] == "switch"]
+            if sorted(switches) != sorted({exh[0], brk[0]}):
+                continue
+            # nothing assigned in the loop lives outside it
+            bad = False
+            for l in range(len(body.locals)):
+                ins = [d_ for d_ in tm.defs.whole[l] if d_[0] in lp]
+                if any(d_[0] in lp for d_ in tm.defs.partial[l]):
+                    bad = True
+                if ins and any(d_[0] not in lp for d_ in tm.defs.whole[l]):
+                    bad = True
+            if bad:
+                continue
+            B = brk[1]
+            blkB = body.blocks[B]
+            if blkB["t"]["k"] != "goto" or body.preds(B) != [brk[0]] and list(body.preds(B)) != [brk[0]]:
+                continue
+            # the break block: copies of temporaries, one assignment to a local that has its other definition before the loop
+            cands = []
+            for si, st in enumerate(blkB["s"]):
+                if st["k"] != "assign" or st["p"]["pr"]:
+                    bad = True
+                    break
+                l = st["p"]["l"]
+                others = [d_ for d_ in tm.defs.whole[l] if d_[0] != B]
+                if others:
+                    if body.locals[l]["ty"].get("k") == "tuple" and not body.locals[l]["ty"].get("ts"):
+                        continue                   # the unit value of the block expression
+                    cands.append((l, si, st, others))
+            if bad or len(cands) != 1:
+                continue
+            r, rsi, rst, others = cands[0]
+            if len(others) != 1 or others[0][0] in lp or not body.dominates(others[0][0], hd):
+                continue
+            save = getattr(tm, "_pos", None)
+            try:
+                nbb, nt = nexts[0]
+                tm._pos = (nbb, "t")
+                ncall = tm.call_term(nt, nbb)
+                it = tm.operand(nt["args"][0])
+                tm._pos = (B, rsi)
+                rval = strip(tm.rvalue(rst["rv"]))
+                tm._pos = (brk[0], "t")
+                cond = tm.operand(body.blocks[brk[0]]["t"]["d"])
+                dflt = self._def_term(others[0])
+                d_, rel_, vals_ = self.an.edge_atom(*brk)
+            except Exception:
+                continue
+            finally:
+                tm._pos = save
+            tr = truth_of(rel_, vals_)
+            if tr is None:
+                continue
+            if not tr:
+                cond = ("un", "Not", cond)
+            elem = ("field", ("downcast", ncall, "Some"), 0)
+            if rval != ("field", elem, 0):
+                continue
+            src = it
+            while src[0] in ("ref", "deref", "mut"):
+                src = src[1] if src[0] != "mut" else src[2]
+            while src[0] == "call" and short(src[1]) == "IntoIterator::into_iter" and len(src[2]) == 1:
+                src = src[2][0]
+            if not (src[0] == "call" and short(src[1]) == "Iterator::enumerate" and len(src[2]) == 1):
+                continue
+            inner = src[2][0]
+            while inner[0] in ("ref", "deref"):
+                inner = inner[1]
+            if not (inner[0] == "call" and short(inner[1]) in ("<impl [T]>::iter", "Vec::<T, A>::iter") and len(inner[2]) == 1):
+                continue
+            x_ = ("field", elem, 1)
+
+            def sub(x):
+                if not isinstance(x, tuple) or not x or not isinstance(x[0], str):
+                    return x
+                if x == x_:
+                    return ("carg", 0)
+                o_ = [x[0]]
+                for y in x[1:]:
+                    if isinstance(y, tuple) and y and isinstance(y[0], str):
+                        o_.append(sub(y))
+                    elif isinstance(y, tuple):
+                        o_.append(tuple(sub(z) if isinstance(z, tuple) else z for z in y))
+                    else:
+                        o_.append(y)
+                return tuple(o_)
+            pred = sub(cond)
+            from .terms import walk as _walk
+            if not any(z == ("carg", 0) for z in _walk(pred)):
+                continue
+            if any(z[0] in ("var", "loopval", "mut") or z == elem for z in _walk(pred)):
+                continue
+            # r is not read between its initialisation and the loop's exits
+            reads_ok = True
+            for bi in body.reachable():
+                if bi in lp or bi in (others[0][0], B):
+                    continue
+                if self._mentions_local(body.blocks[bi], r) and body.can_reach(0, bi, avoid=[exh[1], B]):
+                    reads_ok = False
+            if not reads_ok or any(self._mentions_local(body.blocks[bi], r) for bi in lp):
+                continue
+            site = nbb
+            term = ("call", "std::option::Option::<T>::unwrap_or",
+                    (("call", "std::iter::Iterator::position",
+                      (("mut", -1, ("call", "core::slice::<impl [T]>::iter", (inner[2][0],), site)), ("lam", pred)), site), dflt), site)
+            out[r] = (term, frozenset(lp), B)
         return out
 
     def _mentions_local(self, blk, l):
